@@ -262,7 +262,23 @@ class AdaptRun:
         self.stats.check("reseed_replays")
 
     # ---- comparisons -------------------------------------------------------------------------------
+    def hold(self, obs: Any) -> None:
+        """What an adapter returned belongs to the caller: later calls must not overwrite it (shared buffers).
+        The last few returned observations are kept and re-digested before every later op."""
+        held = self.__dict__.setdefault("_held", [])
+        held.append((obs, util.tree_digest(util.to_np(obs))))
+        del held[:-6]
+
+    def check_held(self, where: str) -> None:
+        for k, (obs, dg) in enumerate(self.__dict__.get("_held", [])):
+            if util.tree_digest(util.to_np(obs)) != dg:
+                self.fail("returned_value_integrity", "observation_overwritten_by_later_call", f"{where}: an observation returned "
+                          f"{len(self._held) - k} calls ago changed value afterwards (buffers shared between returned observations)")
+        self.stats.check("held_observations_rechecked")
+
     def check_gym_obs(self, where: str, obs: Any, ts: Any) -> None:
+        self.check_held(where)
+        self.hold(obs)
         d = dict_diff(obs, obs_to_dict(ts.observation))
         if d:
             self.fail("gym_vs_native", "observation_differs", f"{where}: {d[:2]}")
@@ -281,6 +297,8 @@ class AdaptRun:
         self.stats.check("gym_space_membership")
 
     def check_dm_obs(self, where: str, obs: Any, ts: Any) -> None:
+        self.check_held(where)
+        self.hold(obs)
         d = dict_diff(obs_to_dict(util.to_np(obs)), obs_to_dict(ts.observation))
         if d:
             self.fail("dm_env_vs_native", "observation_differs", f"{where}: {d[:2]}")
